@@ -80,17 +80,35 @@ def complement_removal(prog: Program, rep, RID: str):
     hit = None
     # loop-local scalars (e.g. `complement = total - val`) are substituted before the site is read
     from rules.common import substitute_locals
+    from rules.common import local_single_defs as _lsd
+    fdefs = _lsd(f.node)
     for lp in [n for n in walk_no_nested(f.node) if isinstance(n, ast.For)]:
         ldefs = {}
-        for s_ in lp.body:
+        for s_ in ast.walk(lp):       # also the scalars computed inside the guarding ifs (`complement = total - val`)
             if isinstance(s_, ast.Assign) and len(s_.targets) == 1 and isinstance(s_.targets[0], ast.Name):
                 ldefs[s_.targets[0].id] = substitute_locals(s_.value, dict(ldefs))
-        for st in lp.body:
-            if isinstance(st, ast.If):
-                st2 = substitute_locals(st, ldefs)
-                if any(isinstance(b, ast.Expr) and re.search(r"\.add\(total - \w+\)", norm(b)) for b in st2.body):
-                    hit = st2
-                    ast.copy_location(hit, st)
+        for k_, v_ in fdefs.items():  # flags computed once before the loop (`complements_are_redundant = self.max_multiplicity == 1`)
+            ldefs.setdefault(k_, v_)
+
+        def chains(stmts, tests):
+            for st_ in stmts:
+                if isinstance(st_, ast.If):
+                    yield from chains(st_.body, tests + [st_.test])
+                elif isinstance(st_, ast.Expr) and tests:
+                    yield tests, st_
+        for tests_, leaf in chains(lp.body, []):
+            leaf2 = substitute_locals(leaf, ldefs)
+            if re.search(r"\.add\(total - \w+\)", norm(leaf2)):
+                # nested ifs are one conjunction
+                conj = []
+                for t_ in tests_:
+                    t2 = substitute_locals(t_, ldefs)
+                    conj += list(t2.values) if isinstance(t2, ast.BoolOp) and isinstance(t2.op, ast.And) else [t2]
+                test_all = conj[0] if len(conj) == 1 else ast.BoolOp(op=ast.And(), values=conj)
+                hit = ast.If(test=test_all, body=[leaf2], orelse=[])
+                outer = [st_ for st_ in lp.body if isinstance(st_, ast.If) and any(x is leaf for x in ast.walk(st_))][0]
+                ast.copy_location(hit, outer)
+                ast.fix_missing_locations(hit)
     key = "MinGenSet.__init__:complement-removal"
     if hit is None:
         raise AnalysisError("MinGenSet.__init__: complement removal site not found")
@@ -110,7 +128,7 @@ def complement_removal(prog: Program, rep, RID: str):
     # with multiplicities x = 2*g1 does not make total - x a sum of elements: the removal is admissible for max_multiplicity == 1 only
     from sa import boolnf as B
     from rules.semantic import enclosing_tests
-    ctx = B.mk_and([B.parse_pol(tt, pol) for tt, pol in enclosing_tests(f.node, hit)] + [B.parse(t)])
+    ctx = B.mk_and([B.parse(t)])      # (the chain of guarding ifs inside the loop is already part of t)
     single_use = B.implies(ctx, B.parse(ast.parse("self.max_multiplicity == 1", mode="eval").body)) or \
         B.implies(ctx, B.parse(ast.parse("max_multiplicity == 1", mode="eval").body))
     keym = "MinGenSet.__init__:complement-removal-multiplicity"
@@ -134,11 +152,13 @@ def start_not_empty(prog: Program, rep, RID: str):
     f = prog.own_method("MinGenSet", "solve")
     init = prog.own_method("MinGenSet", "__init__")
     key = "MinGenSet.solve:start-at-least-1"
+    from rules.common import local_single_defs as _lsd15, substitute_locals as _sl15
+    ldefs = _lsd15(f.node)
     loops = [lp for lp in ast.walk(f.node) if isinstance(lp, ast.For) and isinstance(lp.iter, ast.Call) and dotted(lp.iter.func) == "range" and
-             any("self.lowerbound" in norm(a) for a in lp.iter.args)]
+             any("self.lowerbound" in norm(_sl15(a, ldefs)) for a in lp.iter.args)]
     if not loops:
         raise AnalysisError("MinGenSet.solve: the search loop over k was not found")
-    lo = loops[0].iter.args[0]
+    lo = _sl15(loops[0].iter.args[0], ldefs)
     clamped = isinstance(lo, ast.Call) and dotted(lo.func) == "max" and any(isinstance(a, ast.Constant) and isinstance(a.value, int) and a.value >= 1 for a in lo.args)
     validated = any(isinstance(i, ast.If) and "lowerbound" in norm(i.test) and any(isinstance(x, ast.Raise) for x in ast.walk(i)) and
                     any(isinstance(c, ast.Compare) and isinstance(c.ops[0], (ast.Lt, ast.LtE)) for c in ast.walk(i.test)) for i in ast.walk(init.node))
